@@ -370,6 +370,17 @@ def emit(repo):
              "Definition source_variant : variant := fun s =>", "  match s with", "  | S_lib => true"]
     for tag, cq in SITE_COQ.items():
         lines.append("  | %s => %s" % (cq, "true" if c["sites"].get(tag) else "false"))
+    # the 15th site is not in an inventoried function (vendored canonicaliser): its guard is looked up directly
+    try:
+        n2j = open(os.path.join(repo, "stix2", "canonicalization", "NumberToJson.py"), encoding="utf-8").read()
+        fn = find(ast.parse(n2j), "convert2Es6Format")
+        genid = any(isinstance(t, ast.Try) and any("float(value)" in ast.unparse(b) for b in t.body)
+                    and any(h.type is not None and "OverflowError" in ast.unparse(h.type) for h in t.handlers)
+                    for t in ast.walk(fn))
+    except (OSError, SyntaxError, FlowError):
+        genid = False
+    c["sites"]["generate-id-huge-integer-overflowerror"] = genid
+    lines.append("  | S_genid_number_range => %s" % ("true" if genid else "false"))
     lines += ["  end.", ""]
     return "\n".join(lines), c
 
